@@ -74,7 +74,27 @@ func TestVerifC10PartSet(t *testing.T) {
 			i := r.Intn(total)
 			p := c10ClonePart(ps.GetPart(i))
 			kind := ""
-			switch r.Intn(10) {
+			switch r.Intn(12) {
+			case 10, 11:
+				// part i's bytes and aunts presented as (index i', total t') with the same
+				// left/right path shape: only the index/total binding can refuse it
+				kind = "shape-transplant"
+				want := c10Shape(i, total)
+				type it struct{ i, t int }
+				var cands []it
+				for t2 := 1; t2 <= total+2; t2++ {
+					for i2 := 0; i2 < t2; i2++ {
+						if (i2 != i || t2 != total) && c10Shape(i2, t2) == want {
+							cands = append(cands, it{i2, t2})
+						}
+					}
+				}
+				if len(cands) > 0 {
+					c := cands[r.Intn(len(cands))]
+					p.Index = uint32(c.i)
+					p.Proof.Index = int64(c.i)
+					p.Proof.Total = int64(c.t)
+				}
 			case 0:
 				kind = "genuine"
 			case 1:
@@ -165,6 +185,21 @@ func TestVerifC10PartSet(t *testing.T) {
 	if err := cs.Write(); err != nil {
 		t.Fatal(err)
 	}
+}
+
+// c10Shape is the left/right path of leaf i in the RFC-6962 tree over t leaves
+func c10Shape(i, t int) string {
+	if t <= 1 {
+		return ""
+	}
+	k := 1
+	for k*2 < t {
+		k *= 2
+	}
+	if i < k {
+		return c10Shape(i, k) + "L"
+	}
+	return c10Shape(i-k, t-k) + "R"
 }
 
 func c10OpsDescr(ops []*Part) string {
